@@ -399,10 +399,12 @@ impl AssemblyCode {
                     {
                         remove_second = true;
                     }
-                    // Remove STA followed by LDA
+                    // Remove STA followed by LDA (when N and Z already describe A:
+                    // the LDA would otherwise be what sets them for a following branch)
                     if i1.mnemonic == AsmMnemonic::STA
                         && i2.mnemonic == AsmMnemonic::LDA
                         && i1.dasm_operand == i2.dasm_operand
+                        && flags == FlagsState::A
                         && !i2.protected
                     {
                         remove_second = true;
@@ -477,7 +479,12 @@ impl AssemblyCode {
                     {
                         remove_first = true;
                     }
-                    if i2.mnemonic == AsmMnemonic::ORA && i2.dasm_operand == "#0" && !i2.protected {
+                    // ORA #0 changes nothing but N and Z: useless only when they describe A
+                    if i2.mnemonic == AsmMnemonic::ORA
+                        && i2.dasm_operand == "#0"
+                        && flags == FlagsState::A
+                        && !i2.protected
+                    {
                         remove_second = true;
                     }
                     if i1.mnemonic == AsmMnemonic::LDA
@@ -561,6 +568,7 @@ impl AssemblyCode {
                 if let Some(AsmLine::Instruction(inst)) = &second {
                     match inst.mnemonic {
                         AsmMnemonic::LDA => {
+                            let flags_described_a = flags == FlagsState::A;
                             if let Some(v) = &accumulator {
                                 if v.eq(&inst.dasm_operand) {
                                     if flags == FlagsState::A {
@@ -602,7 +610,10 @@ impl AssemblyCode {
                                 }
                             }
                             accumulator = Some(inst.dasm_operand.clone());
-                            flags = FlagsState::A;
+                            // A load dropped because of what follows it sets no flag
+                            if !remove_second || flags_described_a {
+                                flags = FlagsState::A;
+                            }
                         }
                         AsmMnemonic::LDX => {
                             if let Some(v) = &accumulator {
@@ -634,7 +645,10 @@ impl AssemblyCode {
                                 }
                             }
                             x_register = Some(inst.dasm_operand.clone());
-                            flags = FlagsState::X;
+                            // A load dropped because of what follows it sets no flag
+                            if !remove_second || flags == FlagsState::X {
+                                flags = FlagsState::X;
+                            }
                         }
                         AsmMnemonic::LDY => {
                             if let Some(v) = &accumulator {
@@ -666,7 +680,10 @@ impl AssemblyCode {
                                 }
                             }
                             y_register = Some(inst.dasm_operand.clone());
-                            flags = FlagsState::Y;
+                            // A load dropped because of what follows it sets no flag
+                            if !remove_second || flags == FlagsState::Y {
+                                flags = FlagsState::Y;
+                            }
                         }
                         AsmMnemonic::DEC | AsmMnemonic::INC => {
                             // N and Z now describe the memory cell, not a register
@@ -814,6 +831,8 @@ impl AssemblyCode {
                             accumulator = None;
                             x_register = None;
                             y_register = None;
+                            // The callee leaves N and Z as it likes
+                            flags = FlagsState::Unknown;
                         }
                         AsmMnemonic::CPX | AsmMnemonic::CPY | AsmMnemonic::CMP => {
                             flags = FlagsState::Unknown;
